@@ -1,3 +1,5 @@
+#[cfg(adlt_verif)]
+use adlt_verif_seam::std;
 // todos:
 // use https://lib.rs/crates/loom for concurrency testing (atomics,...)
 // use https://lib.rs/crates/lasso for string interner or
